@@ -30,6 +30,15 @@ def openFrom : Nat → Chain → Str → Option (Nat × Entry)
 
 def «open» (c : Chain) (p : Str) : Option (Nat × Entry) := openFrom 0 c p
 
+/-- metadata of an entry as `fs.FileInfo` shows it: (isDir, size) -/
+def Entry.info : Entry → Bool × Nat
+  | .file c => (false, c.length)
+  | .dir _ => (true, 0)
+
+/-- `fs.Stat(overlay, p)`: the overlay has no `Stat` of its own (Generated.overlayMethods), so io/fs does `Open` + `File.Stat` + `Close`:
+    the metadata of the entry `Open` serves, with the index of the serving layer -/
+def stat (c : Chain) (p : Str) : Option (Nat × Bool × Nat) := («open» c p).map (fun r => (r.1, r.2.info))
+
 /-- `fs.ReadDir(layer, name)`: entries when `name` is a directory there, an error otherwise. -/
 def layerReadDir (L : Layer) (p : Str) : Option (List (Str × Bool)) :=
   match L.look p with
